@@ -64,6 +64,9 @@ func (p c02) Gen(c *run.Ctx, idx int) (json.RawMessage, error) {
 	prof.Pool = cu.spec.Data.Pool
 	prof.IDStyle = cu.spec.Data.IDStyle
 	prof.HostileStrings = cu.spec.Data.Hostile
+	if idx%4 == 1 {
+		prof.PFragment, prof.PFragReuse = 0.25, 0.5
+	}
 	if idx%3 == 0 {
 		prof.PVar, prof.PVarDefault, prof.PArgsAlways = 0.7, 0.3, true
 	}
